@@ -195,6 +195,24 @@ theorem midRanks_singletons (col : List α) :
   intro a _
   simp only [Function.comp_def, List.map_map, wmU_singleton, rowScore]
 
+theorem singletons_eq (rows : List (List α)) (h : ∀ e ∈ rows, e.length = 1) :
+    rows = rows.flatten.map fun a => [a] := by
+  induction rows with
+  | nil => rfl
+  | cons e rest ih =>
+    have he := h e (by simp)
+    match e, he with
+    | [a], _ =>
+      simp only [List.flatten_cons, List.singleton_append, List.map_cons]
+      rw [← ih (fun e' he' => h e' (by simp [he']))]
+
+/-- the conditions under which `dscore` obtains its forecast ranks: a valid kernel call on `n ≥ 1` forecasts of
+`m ≥ 1` members, every pair of ensembles tied-or-separated and stably sorted (not needed for `m = 1`,
+where the kernel is not used) -/
+def RanksOK (sort : List (α × ℕ) → List (α × ℕ)) (epsmin eps ceps : α) (m : ℕ) (rows : List (List α)) : Prop :=
+  epsmin ≤ eps ∧ 0 < eps ∧ 0 ≤ ceps ∧ 0 < m ∧ rows ≠ [] ∧ (∀ e ∈ rows, e.length = m) ∧
+    (m ≠ 1 → rows.Pairwise (PairOK sort eps ceps))
+
 /-! ### observation ranks -/
 
 theorem stableRanks_map {f : α → α} (hf : StrictMono f) (obs : List α) :
